@@ -180,6 +180,10 @@ ctr = complex(c * cxp - s * cyp + (st.real + en.real) / 2, s * cxp + c * cyp + (
 scale = 1 + abs(st) + abs(en) + rx + ry
 bad = []
 if any(v != v for v in (a.center.real, a.center.imag, a.theta, a.delta, a.point(0.5).real)): bad.append(('not-a-number', a.center, a.theta, a.delta, a.point(0.5)))
+for tt in (0.3, 0.7):
+    h = 1e-6
+    fd = (a.point(tt + h) - a.point(tt - h)) / (2 * h)          # derivative(t) against a central difference of point(t)
+    if abs(a.derivative(tt) - fd) > 1e-4 * (1 + abs(fd)): bad.append(('derivative', tt, a.derivative(tt), fd))
 if abs(a.radius - complex(rx, ry)) > 1e-7 * scale: bad.append(('radius', a.radius, complex(rx, ry)))
 if abs(a.center - ctr) > 1e-5 * scale and abs(lam - 1) > 1e-6: bad.append(('center', a.center, ctr))
 if abs(a.point(0) - st) > 1e-5 * scale or abs(a.point(1) - en) > 1e-5 * scale: bad.append(('end points', a.point(0), a.point(1)))
